@@ -727,7 +727,13 @@ fn parse_type_atom(p: &mut Parser) -> Result<Option<Type>, ErrorSet> {
     p.enter()?;
     let res = parse_type_atom_nested(p);
     p.leave();
-    res
+    let mut res = res?;
+    // `A?` is the rendering of the option type `1 + A`
+    while p.peek() == Some(&Token::Question) {
+        p.advance();
+        res = res.map(|ty| Type::Sum(Box::new(Type::One), Box::new(ty)));
+    }
+    Ok(res)
 }
 
 fn parse_type_atom_nested(p: &mut Parser) -> Result<Option<Type>, ErrorSet> {
